@@ -184,21 +184,53 @@ type connState struct {
 	mgr *server.Manager
 }
 
-func execStep(mgr *server.Manager, cmd [][]byte) (out string) {
-	defer func() {
-		if e := recover(); e != nil {
-			out = "!PANIC"
-			if os.Getenv("VERIF_DEBUG") != "" {
-				fmt.Fprintln(os.Stderr, "panic:", e)
-			}
-		}
-	}()
-	r := mgr.ExecCommand(context.Background(), cmd, nil)
-	name := ""
-	if len(cmd) > 0 {
-		name = strings.ToLower(string(cmd[0]))
+// A command still running watchdogMs virtual milliseconds after it started (BLPOP with timeout 0
+// and nothing to pop blocks for ever; under faketime its ticker would spin for ever) is cancelled
+// through its context and reported as "!BLOCKED".  Not a multiple of 100, so the watchdog never
+// coincides with a polling tick or a whole-second timeout.  VERIF_WATCHDOG_MS overrides it.
+var watchdogMs = func() int64 {
+	if v, err := strconv.ParseInt(os.Getenv("VERIF_WATCHDOG_MS"), 10, 64); err == nil && v > 0 {
+		return v
 	}
-	return canonForCmd(name, canonReply(r))
+	return 100000050
+}()
+
+func execStep(mgr *server.Manager, cmd [][]byte) (out string) {
+	ctx, cancel := context.WithCancel(context.Background())
+	defer cancel()
+	done := make(chan string, 1)
+	go func() {
+		defer func() {
+			if e := recover(); e != nil {
+				if os.Getenv("VERIF_DEBUG") != "" {
+					fmt.Fprintln(os.Stderr, "panic:", e)
+				}
+				done <- "!PANIC"
+			}
+		}()
+		r := mgr.ExecCommand(ctx, cmd, nil)
+		name := ""
+		if len(cmd) > 0 {
+			name = strings.ToLower(string(cmd[0]))
+		}
+		done <- canonForCmd(name, canonReply(r))
+	}()
+	wd := time.NewTimer(time.Duration(watchdogMs) * time.Millisecond)
+	defer wd.Stop()
+	select {
+	case out = <-done:
+		return out
+	case <-wd.C:
+		cancel()
+		// let the cancelled executor finish (a leaked poller would steal later elements)
+		grace := time.NewTimer(time.Second)
+		defer grace.Stop()
+		select {
+		case <-done:
+		case <-grace.C:
+		}
+		return "!BLOCKED"
+	}
 }
 
 // memrun <progfile> <outfile> <scratchdir>
@@ -254,6 +286,7 @@ func memRunCmd(args []string) error {
 			cfg := setupServer(dbs, args[2])
 			mgr = server.NewManager(cfg)
 			fmt.Fprintf(w, "CASE %s %d\n", fs[1], dbs)
+			fmt.Fprintf(w, "WD %d\n", watchdogMs)
 			progress.Seek(0, 0)
 			fmt.Fprintf(progress, "%s\n", fs[1])
 		case "C":
